@@ -49,6 +49,48 @@ func compatibleRef(q fieldpath.Path, pats []pattern) bool {
 	return false
 }
 
+// mtree is the harness's own record of a matcher tree handed to NewSetMatcher
+type mtree struct {
+	wild    bool
+	members []mmember
+}
+
+type mmember struct {
+	path  fieldpath.PathElementMatcher
+	child *mtree
+}
+
+// treesRef is the independent reference for a filter made of matcher trees without repeated paths in a
+// node: compatibleRef on trees (a wildcard set matches everything; at each position wildcard members
+// shadow the specific ones; members of the same path from different trees are united).
+func treesRef(q fieldpath.Path, ts []*mtree) bool {
+	for _, t := range ts {
+		if t.wild {
+			return true
+		}
+	}
+	if len(q) == 0 {
+		return true
+	}
+	var wild, spec []*mtree
+	for _, t := range ts {
+		for _, m := range t.members {
+			if m.path.Wildcard {
+				wild = append(wild, m.child)
+			} else if m.path.PathElement.Equals(q[0]) {
+				spec = append(spec, m.child)
+			}
+		}
+	}
+	if len(wild) > 0 {
+		return treesRef(q[1:], wild)
+	}
+	if len(spec) > 0 {
+		return treesRef(q[1:], spec)
+	}
+	return false
+}
+
 func domFlt(r *gen.Rng, n int, thorough bool, o *Out) {
 	var c *typCtx
 	for i := 0; i < n; i++ {
@@ -196,46 +238,65 @@ func domFlt(r *gen.Rng, n int, thorough bool, o *Out) {
 		// given decides), wildcard members next to specific ones, wildcard sets with members, merged in
 		// both orders. Only trees of at most four members per node (sort.Sort is an insertion sort there).
 		{
-			var encT func(d int, at []fieldpath.Path) (*fieldpath.SetMatcher, string)
-			encT = func(d int, at []fieldpath.Path) (*fieldpath.SetMatcher, string) {
+			hasDup := false
+			allowDup := cr.Chance(25) // three ops in four have no path twice in a node: those are judged
+			var encT func(d int, at []fieldpath.Path) (*fieldpath.SetMatcher, string, *mtree)
+			encT = func(d int, at []fieldpath.Path) (*fieldpath.SetMatcher, string, *mtree) {
 				if d == 0 || len(at) == 0 || cr.Chance(25) {
-					return fieldpath.MatchAnySet(), "W"
+					return fieldpath.MatchAnySet(), "W", &mtree{wild: true}
 				}
 				nm := 1 + cr.Intn(4)
 				var mem []*fieldpath.SetMemberMatcher
+				sh := &mtree{}
 				enc := ""
 				for k := 0; k < nm; k++ {
 					var pm fieldpath.PathElementMatcher
 					var below []fieldpath.Path
-					if len(mem) > 0 && cr.Chance(35) {
+					if allowDup && len(mem) > 0 && cr.Chance(30) {
 						pm = mem[cr.Intn(len(mem))].Path // the same path again
 					} else if cr.Chance(20) {
 						pm = fieldpath.MatchAnyPathElement()
 					} else {
 						pm = fieldpath.PathElementMatcher{PathElement: gen.Pick(cr, at)[0]}
 					}
+					dup := false
+					for _, prev := range mem {
+						if prev.Path.Equals(pm) {
+							dup = true
+						}
+					}
+					if dup && !allowDup {
+						continue // (fewer members rather than a repeated path)
+					}
+					if dup {
+						hasDup = true
+					}
 					for _, q := range at {
 						if len(q) > 1 && (pm.Wildcard || q[0].Equals(pm.PathElement)) {
 							below = append(below, q[1:])
 						}
 					}
-					child, ce := encT(d-1, below)
+					child, ce, cs := encT(d-1, below)
 					mem = append(mem, &fieldpath.SetMemberMatcher{Path: pm, Child: child})
+					sh.members = append(sh.members, mmember{pm, cs})
 					enc += "(" + encMatcher(pm) + ce + ")"
 				}
 				w := cr.Chance(5)
+				sh.wild = w
 				wf := "F"
 				if w {
 					wf = "T"
 				}
-				return fieldpath.NewSetMatcher(w, mem...), "N" + wf + enc + ";"
+				return fieldpath.NewSetMatcher(w, mem...), "N" + wf + enc + ";", sh
 			}
-			nt := 1 + cr.Intn(2)
+			nt := 1 + cr.Intn(3)
 			var trees []*fieldpath.SetMatcher
+			var shadows []*mtree
 			enc := "t"
 			for k := 0; k < nt; k++ {
-				m, e := encT(3, paths)
+				m, e, sh := encT(3, paths)
 				trees = append(trees, m)
+				shadows = append(shadows, sh)
 				enc += e
 			}
 			enc += ";"
@@ -245,6 +306,20 @@ func domFlt(r *gen.Rng, n int, thorough bool, o *Out) {
 				out := fieldpath.NewIncludeMatcherFilter(trees...).Filter(set)
 				if !out.Difference(set).Empty() {
 					o.Fail("C19", "include-filter-invents-path", "", "include-filter-invents-path "+opT, opT)
+				}
+				if !hasDup {
+					// no node lists one path twice: the merged filter keeps exactly the paths compatible with the
+					// union of the trees (members of equal path united, a wildcard member shadowing specific ones)
+					set.Iterate(func(p fieldpath.Path) {
+						want := treesRef(p, shadows)
+						if out.Has(p) != want {
+							o.Fail("C19", "include-filter-keeps-exactly-compatible", fmt.Sprintf("matcher trees: path %s kept=%v compatible=%v", vx.Path(p), out.Has(p), want),
+								"include-filter-keeps-exactly-compatible "+opT, opT)
+						}
+					})
+					o.Tag("flt:trees-judged")
+				} else {
+					o.Tag("flt:trees-with-repeated-path")
 				}
 				return vx.Trie(out)
 			})
